@@ -10,38 +10,38 @@ import (
 
 // RunResult is what one simulated run reports to the orchestrator.
 type RunResult struct {
-	Seed       uint64      `json:"seed"`
-	Profile    string      `json:"profile"`
-	Digest     string      `json:"digest"`
-	TraceHash  string      `json:"trace_hash"`
-	Violations []Violation `json:"violations,omitempty"`
+	Seed       uint64         `json:"seed"`
+	Profile    string         `json:"profile"`
+	Digest     string         `json:"digest"`
+	TraceHash  string         `json:"trace_hash"`
+	Violations []Violation    `json:"violations,omitempty"`
 	KnownHits  map[string]int `json:"known_hits,omitempty"`
-	Stats      *Stats      `json:"stats"`
-	NStates    int         `json:"n_states"`
-	NPairs     int         `json:"n_pairs"`
-	StatesList []string    `json:"states_list,omitempty"`
-	PairsList  []string    `json:"pairs_list,omitempty"`
-	Steps      int         `json:"steps"`
-	Height     int64       `json:"height"`
-	Dead       bool        `json:"dead"`
-	WallMs     int64       `json:"wall_ms"`
-	Trace      *Trace      `json:"trace,omitempty"`
-	Sample     []string    `json:"sample,omitempty"`
-	Harness    string      `json:"harness_error,omitempty"`
-	MaxTicks   int64       `json:"max_ticks"`
+	Stats      *Stats         `json:"stats"`
+	NStates    int            `json:"n_states"`
+	NPairs     int            `json:"n_pairs"`
+	StatesList []string       `json:"states_list,omitempty"`
+	PairsList  []string       `json:"pairs_list,omitempty"`
+	Steps      int            `json:"steps"`
+	Height     int64          `json:"height"`
+	Dead       bool           `json:"dead"`
+	WallMs     int64          `json:"wall_ms"`
+	Trace      *Trace         `json:"trace,omitempty"`
+	Sample     []string       `json:"sample,omitempty"`
+	Harness    string         `json:"harness_error,omitempty"`
+	MaxTicks   int64          `json:"max_ticks"`
 }
 
 type RunOpts struct {
-	Props     map[string]bool
-	Known     *KnownFindings
-	Verbose   bool
-	KeepTrace bool
-	Fuel      int64
-	Mode      string // "", "c01", "c03", "c18"
-	Stop      bool
-	StopSig   string
+	Props       map[string]bool
+	Known       *KnownFindings
+	Verbose     bool
+	KeepTrace   bool
+	Fuel        int64
+	Mode        string // "", "c01", "c03", "c18"
+	Stop        bool
+	StopSig     string
 	OnlyReplica string // shrink: replay only the diverging replica
-	Thorough  bool
+	Thorough    bool
 }
 
 func defaultOracles(e *Env) {
